@@ -333,29 +333,33 @@ theorem oAttr_reads (sc : Scope) (asg : List S) (hb : Base sc asg) (f : S) : ∀
 theorem final_reads (p : Char → Bool) (c : GCond) (e : Expr) (op2 : S) :
     ∀ r ∈ (c.final p e op2).reads, r ∈ e.reads ∨ (r = op2 ∧ c.binds p = true) ∨ r = "Ellipsis".toList := by
   intro r hr
+  have inl : ∀ x, c.inlineExpr = some x → ∀ r ∈ x.reads, r = "Ellipsis".toList := by
+    intro x hx r hr
+    unfold GCond.inlineExpr at hx
+    split at hx
+    all_goals first
+      | (simp only [Option.some.injEq] at hx; subst hx; simp [Expr.reads] at hr; try exact hr)
+      | (split at hx
+         · simp at hx
+         · simp only [Option.some.injEq] at hx; subst hx; simp [Expr.reads] at hr)
+      | simp at hx
   have key : ∀ op : COp, op.tOrF = false → c.op = op →
-      r ∈ (match c.inlineText p with
-            | some t => Expr.bin e op.text (if c.val = CVal.ellipsis then Expr.name t else Expr.lit t)
-            | Option.none => Expr.bin e op.text (.name op2)).reads →
+      r ∈ (match c.inlineExpr with
+            | some x => Expr.bin e (.cmp op) x
+            | Option.none => Expr.bin e (.cmp op) (.name op2)).reads →
       r ∈ e.reads ∨ (r = op2 ∧ c.binds p = true) ∨ r = "Ellipsis".toList := by
     intro op hop hc hr
-    cases hi : c.inlineText p with
+    cases hi : c.inlineExpr with
     | none =>
       simp only [hi, Expr.reads, List.mem_append, List.mem_singleton] at hr
       rcases hr with hr | hr
       · exact Or.inl hr
       · exact Or.inr (Or.inl ⟨hr, by simp [GCond.binds, hc, hop, hi]⟩)
-    | some t =>
-      simp only [hi] at hr
-      by_cases hv : c.val = .ellipsis
-      · simp only [hv, if_true, Expr.reads, List.mem_append, List.mem_singleton] at hr
-        rcases hr with hr | hr
-        · exact Or.inl hr
-        · have : t = "Ellipsis".toList := by
-            simp only [GCond.inlineText, hv, Option.some.injEq] at hi; exact hi.symm
-          exact Or.inr (Or.inr (by rw [hr, this]))
-      · simp only [hv, if_false, Expr.reads, List.mem_append, List.not_mem_nil, or_false] at hr
-        exact Or.inl hr
+    | some x =>
+      simp only [hi, Expr.reads, List.mem_append] at hr
+      rcases hr with hr | hr
+      · exact Or.inl hr
+      · exact Or.inr (Or.inr (inl x hi r hr))
   unfold GCond.final at hr
   cases hc : c.op <;> simp only [hc] at hr
   case truthy => exact Or.inl hr
@@ -578,7 +582,7 @@ theorem skipDefaultLines_ok (p : Char → Bool) (g : GIn) (sc : Scope)
         cases hm : g.skipDefaultsIf with
         | some c =>
           have hr : sc.readsOk asg (Simple.assign false [Target.name (skipName i)]
-              (Expr.bin (Expr.name (skipName i)) "or".toList (c.final p (oAttr f.name) skipDefaultsValue))).reads = true := by
+              (Expr.bin (Expr.name (skipName i)) .or_ (c.final p (oAttr f.name) skipDefaultsValue))).reads = true := by
             rw [readsOk_iff]
             intro x hx
             simp only [Simple.reads, Expr.reads, List.flatMap_cons, List.flatMap_nil, Target.reads, List.append_nil,
@@ -593,8 +597,8 @@ theorem skipDefaultLines_ok (p : Char → Bool) (g : GIn) (sc : Scope)
           rw [if_pos hr]; rfl
         | none =>
           have hr : sc.readsOk asg (Simple.assign false [Target.name (skipName i)]
-              (Expr.bin (Expr.name (skipName i)) "or".toList
-                (Expr.bin (oAttr f.name) "==".toList (Expr.name (defaultName i))))).reads = true := by
+              (Expr.bin (Expr.name (skipName i)) .or_
+                (Expr.bin (oAttr f.name) (.cmp .eq) (Expr.name (defaultName i))))).reads = true := by
             rw [readsOk_iff]
             intro x hx
             simp only [Simple.reads, Expr.reads, List.flatMap_cons, List.flatMap_nil, Target.reads, List.append_nil,
@@ -640,7 +644,7 @@ theorem excludeAssigns_check (p : Char → Bool) (sc : Scope) : ∀ (fs : List G
     refine ⟨out, ?_, fun x hx => hsub x (List.mem_cons_of_mem _ hx), ?_⟩
     · simp only [excludeAssigns, checkSimples]
       have : sc.readsOk asg (Simple.assign true [Target.name (skipName i)]
-          (Expr.bin (Expr.lit (pyRepr p f.name)) "in".toList (nm "exclude"))).reads = true := by
+          (Expr.bin (Expr.lit (.str f.name)) .in_ (nm "exclude"))).reads = true := by
         rw [readsOk_iff]; intro x hx
         simp only [Simple.reads, Expr.reads, nm, List.flatMap_cons, List.flatMap_nil, Target.reads, List.append_nil,
           List.nil_append, List.mem_singleton] at hx
@@ -660,12 +664,12 @@ theorem skipTargets_reads : ∀ (fs : List GField) (i : Nat), (skipTargets i fs)
 
 theorem ifelse_ok (p : Char → Bool) (sc : Scope) (fs : List GField) (a : List S)
     (he : sc.readOk a "exclude".toList = true) :
-    ∃ out, L2.check sc a (L2.if_ (.bin (nm "exclude") "is".toList (.lit "None".toList))
-        [.line { parts := [.assign true (skipTargets 0 fs) (.lit "False".toList)] }]
+    ∃ out, L2.check sc a (L2.if_ (.bin (nm "exclude") (.cmp .is_) (.lit .none))
+        [.line { parts := [.assign true (skipTargets 0 fs) (.lit .false_)] }]
         (some [.line { parts := excludeAssigns p 0 fs, sep := [';'] }])) = some out ∧
       (∀ n ∈ a, n ∈ out) ∧ ∀ j, j < fs.length → skipName j ∈ out := by
   obtain ⟨y, hy, hsub, hsk⟩ := excludeAssigns_check p sc fs 0 a he
-  have hc : sc.readsOk a (Expr.bin (nm "exclude") "is".toList (.lit "None".toList)).reads = true := by
+  have hc : sc.readsOk a (Expr.bin (nm "exclude") (.cmp .is_) (.lit .none)).reads = true := by
     rw [readsOk_iff]; intro x hx
     simp only [Expr.reads, nm, List.append_nil, List.mem_singleton] at hx
     rw [hx]; exact he
@@ -879,7 +883,7 @@ theorem genBody_ok (p : Char → Bool) (g : GIn) :
         by_cases hp : g.hasPaths = true
         · simp only [hp, if_true, List.mem_singleton] at hx
           subst hx
-          have hr1 : (genScope p g).readsOk b (Simple.expr (Expr.bin (nm "result") "and".toList
+          have hr1 : (genScope p g).readsOk b (Simple.expr (Expr.bin (nm "result") .and_
               (Expr.call1 (Expr.attr (nm "paths") "update".toList) (nm "result")))).reads = true := by
             rw [readsOk_iff]; intro y hy
             simp only [Simple.reads, Expr.reads, nm, List.mem_append, List.mem_singleton] at hy
@@ -887,7 +891,7 @@ theorem genBody_ok (p : Char → Bool) (g : GIn) :
             · rw [hy]; exact hbase.result
             · rw [hy]; exact hpb hp
             · rw [hy]; exact hbase.result
-          have hr2 : (genScope p g).readsOk ((Simple.expr (Expr.bin (nm "result") "and".toList
+          have hr2 : (genScope p g).readsOk ((Simple.expr (Expr.bin (nm "result") .and_
               (Expr.call1 (Expr.attr (nm "paths") "update".toList) (nm "result")))).writes ++ b)
               (Simple.assign false [Target.name "result".toList] (nm "paths")).reads = true := by
             rw [readsOk_iff]; intro y hy
@@ -922,16 +926,16 @@ theorem genBody_ok (p : Char → Bool) (g : GIn) :
             (Expr.call1 (nm "dict_factory") (nm "result"))).writes ++ a) := hbase.mono (fun x hx => List.mem_append_right _ hx)
         have hr2 : (genScope p g).readsOk ((Simple.assign false [Target.name "result".toList]
             (Expr.call1 (nm "dict_factory") (nm "result"))).writes ++ a)
-            (Simple.assign false [Target.item "result".toList [pyRepr p g.effTagKey]] (Expr.lit (pyRepr p t))).reads = true := by
+            (Simple.assign false [Target.item "result".toList [pyRepr p g.effTagKey]] (Expr.lit (.str t))).reads = true := by
           rw [readsOk_iff]; intro y hy
           simp only [Simple.reads, Expr.reads, Target.reads, List.flatMap_cons, List.flatMap_nil, List.append_nil,
             List.nil_append, List.mem_singleton] at hy
           rw [hy]; exact hb1.result
         have c2 := line1_check (genScope p g) _ _ "; ".toList hr2
-        have hb2 := hb1.mono (b := (Simple.assign false [Target.item "result".toList [pyRepr p g.effTagKey]] (Expr.lit (pyRepr p t))).writes ++
+        have hb2 := hb1.mono (b := (Simple.assign false [Target.item "result".toList [pyRepr p g.effTagKey]] (Expr.lit (.str t))).writes ++
           ((Simple.assign false [Target.name "result".toList] (Expr.call1 (nm "dict_factory") (nm "result"))).writes ++ a))
           (fun x hx => List.mem_append_right _ hx)
-        have hr3 : (genScope p g).readsOk ((Simple.assign false [Target.item "result".toList [pyRepr p g.effTagKey]] (Expr.lit (pyRepr p t))).writes ++
+        have hr3 : (genScope p g).readsOk ((Simple.assign false [Target.item "result".toList [pyRepr p g.effTagKey]] (Expr.lit (.str t))).writes ++
             ((Simple.assign false [Target.name "result".toList] (Expr.call1 (nm "dict_factory") (nm "result"))).writes ++ a))
             (Simple.ret (nm "result")).reads = true := by
           rw [readsOk_iff]; intro y hy
